@@ -804,7 +804,7 @@ def run(ctx):
     import time
     tm = {}
     t0 = time.time()
-    m_items = stream_merge(ctx, vals, ctx.n(900, 6000))
+    m_items = stream_merge(ctx, vals, ctx.n(700, 6000))
     n_merge_eval = ctx.evaluations
     ctx.obligation("oracle:_merge", oracle_ok(ctx),
                    f"{len(m_items)} triples x both orders on the real _merge judged by the independent per-key "
@@ -825,7 +825,7 @@ def run(ctx):
         # ... and sampled rows of that universe under the other policies
         rows += [(ctx.rng.choice(cells3), ctx.rng.choice(cells3), ctx.rng.choice(POLS[:-1])) for _ in range(2000)]
     else:
-        rows = [(ctx.rng.choice(cells3), ctx.rng.choice(cells3), ctx.rng.choice(POLS)) for _ in range(ctx.n(150, 0))]
+        rows = [(ctx.rng.choice(cells3), ctx.rng.choice(cells3), ctx.rng.choice(POLS)) for _ in range(ctx.n(120, 0))]
     s_items = sweep_rows(ctx, svals, ks3, 4, rows, "str")
     if thorough:
         # (ii) ALL 27^3 triples over 3 keys x (absent + 2 values) x all 9 policies
@@ -847,7 +847,7 @@ def run(ctx):
     tm["py_sweep"] = round(time.time() - t0, 2)
     t0 = time.time()
 
-    t_items = stream_tree(ctx, ctx.n(220, 1000))
+    t_items = stream_tree(ctx, ctx.n(160, 1000))
     if thorough:
         t_items += tree_exhaustive(ctx)
     ctx.obligation("oracle:merge-objects", oracle_ok(ctx),
